@@ -96,23 +96,27 @@ def tecmpLinM (b p : Bytes) : Option (List Packet) :=
 def tecmpCmM (b p : Bytes) : Option (List Packet) :=
   if p.length < 18 then some []
   else do
-    let _ ← rdN p 8 4
-    let _ ← rdB p 13 5
-    pure (tecmpCm b p)
+    let v ← rdN p 4 2
+    if p.length - 12 < v then pure []
+    else
+      let _ ← rdN p 8 4
+      let _ ← rdB p 13 5
+      pure (tecmpCm b p)
 
-def tecmpBusEntriesM (p : Bytes) : Nat → Nat → Option Unit
+def tecmpBusEntriesM (p : Bytes) (v : Nat) : Nat → Nat → Option Unit
   | 0, _ => some ()
   | fuel+1, off =>
-    if off + 12 ≤ p.length then do
+    if off + (12 + v) ≤ p.length then do
       let _ ← rdB p off 12
-      tecmpBusEntriesM p fuel (off + 12)
+      tecmpBusEntriesM p v fuel (off + (12 + v))
     else some ()
 
 def tecmpBusM (b p : Bytes) : Option (List Packet) :=
   if p.length < 12 then some []
   else do
     let _ ← rdB p 0 12
-    let _ ← tecmpBusEntriesM p (p.length / 12 + 1) 12
+    let v ← rdN p 4 2
+    let _ ← tecmpBusEntriesM p v (p.length / 12 + 1) 12
     pure (tecmpBus b p)
 
 def tecmpDecodeM (b : Bytes) : Option (List Packet) :=
